@@ -13,3 +13,6 @@ mod tests;
 pub use module::Module;
 pub use semantic_state::{ResolvedSemanticState, SemanticState};
 pub use type_registry::TypeRegistry;
+
+#[cfg(pyxis_verif)]
+pub use type_registry::verif_hook;
